@@ -189,7 +189,7 @@ void Instance::parse_stack_args(size_t argc, char* const* argv, size_t starting_
 }
 
 bool Instance::setup_environment(unsigned int flags) {
-    if (tx) {
+    if (tx && !tx->vin.empty()) { // a transaction without inputs gives signature checks nothing to refer to
         if (txin && txin_index > -1) {
             std::vector<CTxOut> spent_outputs;
             spent_outputs.emplace_back(txin->vout[txin_vout_index]);
